@@ -153,6 +153,9 @@ package file
 //@ func New
 //@ props C03 C13 C05 C12
 //@ requires NodesOK(tree.Nodes)
+//@ modifies taskIdx
+//@ at return HasTask#0: ghost taskIdx = store(taskIdx, task.Name, $i)
+//@ ensures [C03,defining-node-index] result1 == nil ==> forall k int :: {tree.Nodes[k]} 0 <= k && k < len(tree.Nodes) && nodeType(tree.Nodes[k]) == ast.NodeTask ==> taskIdx[tname(tree.Nodes[k])] == k
 //@ ensures [shape] result1 == nil ==> result0 != nil && fresh(result0) && result0.Dir == root && result0.Path == join2(root, "spokfile") && result0.Vars != nil && result0.Tasks != nil && result0.Globs != nil
 //@ ensures [C03,TasksInv] result1 == nil ==> TasksInv(result0)
 //@ ensures [C05,no-stale-expansions] result1 == nil ==> GlobsCurrent(result0)
@@ -164,7 +167,7 @@ package file
 //@ loop 0: invariant mapval(file.Globs) == mapval(file.Globs) && forall p string :: {dom(file.Globs, p)} {file.Globs[p]} dom(file.Globs, p) ==> len(file.Globs[p]) == 0
 //@ loop 0: invariant mapval(file.Tasks) == mapval(file.Tasks) && forall key string :: {dom(file.Tasks, key)} {file.Tasks[key]} dom(file.Tasks, key) ==> file.Tasks[key].Name == key
 //@ loop 0: invariant forall k int :: {tree.Nodes[k]} 0 <= k && k < $i && nodeType(tree.Nodes[k]) == ast.NodeTask ==> dom(file.Tasks, tname(tree.Nodes[k])) && TaskMatches(file.Tasks[tname(tree.Nodes[k])], unbox(tree.Nodes[k], ast.Task), root, varsF(tree.Nodes, k))
-//@ loop 0: invariant forall i int, j int :: {tree.Nodes[i], tree.Nodes[j]} 0 <= i && i < j && j < $i && nodeType(tree.Nodes[i]) == ast.NodeTask && nodeType(tree.Nodes[j]) == ast.NodeTask ==> tname(tree.Nodes[i]) != tname(tree.Nodes[j])
+//@ loop 0: invariant forall k int :: {tree.Nodes[k]} 0 <= k && k < $i && nodeType(tree.Nodes[k]) == ast.NodeTask ==> taskIdx[tname(tree.Nodes[k])] == k
 //@ loop 0: decreases len(tree.Nodes) - $i
 //@ loop 1: invariant 0 <= $i && $i <= len(function.Arguments) && args == argLits(function.Arguments, $i)
 //@ loop 1: decreases len(function.Arguments) - $i
